@@ -6,6 +6,7 @@ convention; Adler modulus / overflow bounds; checksum kernels are store-free."""
 import re, struct
 from common import Report, AnalysisBroken
 import cbuild, srcset, asmdb, mirror, gf2, common
+import irrules
 srcset.REPO = common.REPO
 from elf import Elf
 from irtext import IRModule
@@ -485,6 +486,47 @@ def check_base_step(rep):
         R.check(not problems, 'crc/%s' % fn, '%s: %s' % (fn, '; '.join(problems)), key='T-CRC-BASE-STEP|%s' % fn, sample='%s: %s step, W = %d' % (fn, 'reflected' if refl else 'MSB-first', W))
 
 
+COUNTER_SCOPE = ('crc/crc_base.c', 'crc/crc64_base.c', 'igzip/adler32_base.c', 'mem/mem_zero_detect_base.c')
+
+
+def check_counter_width(rep, mod):
+    """The portable checksum routines take their length as a 64-bit count ("buffer length in bytes (64-bit data)").  A byte loop whose counter is a 32-bit int compared with
+    that length stops being defined at 2^31 iterations: built without optimisation (this build) the counter wraps negative, is sign-extended to a huge unsigned value and the loop
+    ends after 2^31 bytes - the CRC of a prefix is returned without any error."""
+    import llir
+    R = rep.rule('L-COUNTER-WIDTH', 'portable checksum / zero-detect routines (%s): no loop exit compares a sign- or zero-extended 32-bit induction variable (a phi stepped by a constant) with a bound '
+                 'computed from a 64-bit parameter: the counter of a loop over the buffer is as wide as the length' % ', '.join(COUNTER_SCOPE), floor=10, unit='functions')
+    n = 0
+    for fn, f in sorted(mod.funcs.items()):
+        if mod.file_of(fn) not in COUNTER_SCOPE:
+            continue
+        if not any(t == 'i64' for t, _ in f.params):
+            continue
+        n += 1
+        R.instance()
+        P = irrules.prov(mod, f)
+        bad = None
+        for b, t, c in irrules.cond_branches(mod, f):
+            if c is None or c.op != 'icmp' or (c.ty or '') != 'i64':
+                continue
+            for x, y in ((c.ops[0], c.ops[1]), (c.ops[1], c.ops[0])):
+                d = f.defs.get(x)
+                if d is None or d.op not in ('sext', 'zext') or d.extra.get('fromty') != 'i32':
+                    continue
+                ph = f.defs.get(d.ops[0])
+                if ph is None or ph.op != 'phi':
+                    continue
+                if not any((f.defs.get(v) is not None and f.defs[v].op == 'add' and ph.dst in f.defs[v].ops) for v, _ in ph.extra['incoming']):
+                    continue
+                if any(dd[0] == 'param' and f.params[dd[1]][0] == 'i64' for dd in P.deps(y)):
+                    bad = c
+        R.check(bad is None, mod.where(f, bad) if bad is not None else mod.where(f, None), '%s: the loop counter is a 32-bit int compared with the 64-bit length: for len > 2^31 the counter overflows (undefined; in this '
+                'unoptimised build it wraps, sign-extends and ends the loop): the checksum of the first 2^31 bytes is returned as if it were the whole buffer' % fn, key='L-COUNTER-WIDTH|%s' % fn,
+                sample='%s: loop counters as wide as the length' % fn)
+    if n == 0:
+        raise AnalysisBroken('L-COUNTER-WIDTH: no portable checksum routine with a 64-bit length found')
+
+
 def main(tier):
     rep = Report('C04', tier, level='other')
     rep.undecided = UNDECIDED
@@ -526,6 +568,8 @@ def main(tier):
     rep.attempt(crctwins.check, rep)
     import tailbytes
     rep.attempt(tailbytes.check, rep)
+    import llir
+    rep.attempt(check_counter_width, rep, llir.library('default'))
     rep.attempt(bounds.check_len_width, rep, {'crc', 'crc_copy', 'adler'}, 'CRC', 31)
     import stridecover
     rep.attempt(stridecover.check, rep, 'CRC', {'crc', 'crc_copy', 'adler'}, 80)
